@@ -377,13 +377,15 @@ class RealEncoder(AbstractItemEncoder):
 
         m *= ms
 
+        # m * 2**e == (m * 2**r) * (2**bits)**q with e == bits * q + r,
+        # 0 <= r < bits: exact for either sign of the exponent
         if encbase == 8:
-            m *= 2 ** (abs(e) % 3 * es)
-            e = abs(e) // 3 * es
+            e, r = divmod(e, 3)
+            m *= 2 ** r
 
         elif encbase == 16:
-            m *= 2 ** (abs(e) % 4 * es)
-            e = abs(e) // 4 * es
+            e, r = divmod(e, 4)
+            m *= 2 ** r
 
         while True:
             if int(m) != m:
